@@ -18,6 +18,14 @@ def main():
     assert sys.argv[5] == '--'
     argv = sys.argv[6:]
     sys.path.insert(0, repo)
+    try:
+        # a request far beyond the machine (and 10^8 0) must not take the machine down: cap the address space of the child;
+        # the harness files a MemoryError under this cap with the timeouts (resources, not behaviour)
+        import resource
+        lim = int(os.environ.get('VERIF_CHILD_AS_MB', '2048')) * 1024 * 1024
+        resource.setrlimit(resource.RLIMIT_AS, (lim, lim))
+    except Exception:
+        pass
     events = []
     if tracefile != '-':
         import random
